@@ -24,6 +24,7 @@ FUNCTIONS['ctls'] = ['_remove_state_subformulas', '_checkQuantifiedFormula', 'CT
 FUNCTIONS['bdd'] = ['find_isomorph', 'BDDNode.__reset__', 'BDDNonTerminalNode.__reset__', 'BDDNonTerminalNode.__new__']
 FUNCTIONS['bddops'] = ['BDDNonTerminalNode.__invert__', 'BDDTerminalNode.__invert__', 'cache_restrict', 'compute_restrict',
                        'apply', 'compute', 'BDDsons_and_BDD', 'BDD_and_BDDsons', 'BDDsons_and_BDDsons']
+FUNCTIONS['bddops'] += ['OBDD.__init__', 'OBDD.apply', 'OBDD.__and__', 'OBDD.__or__', 'OBDD.__xor__', 'OBDD.__invert__']
 PROPERTY_FUNCTIONS = {
     'C10': ['Parser.__call__'],
     'C02': ['LTL.modelcheck', 'LNot', 'Not.get_equivalent_restricted_formula'],
@@ -80,8 +81,10 @@ TRUSTED = {
             'under proof for all nodes, operators, orderings and cache contents satisfying the cache invariant: __invert__ (both classes: complement), cache_restrict/compute_restrict (cofactor: den(res)(s) = den(f)(s[v:=b])), '
             'apply/compute and the three decompositions (den(res)(s) = op(den(A)(s), den(B)(s)) for an arbitrary binary operator value); result caches (dictionaries keyed by node identity) by invariant',
             'ASSUMED: BDDTerminalNode.__new__ (class-level dictionary Tnodes keyed by 0/1/False/True is not modelled): returns the terminal of the value and leaves constructed nodes as they are',
-            'NOT under proof (bounded only): orderedness of results (Ordering.in_order is uninterpreted: the decomposition chosen does not matter for the function computed), variables(), '
-            'the OBDD wrapper class (ordering compatibility -> RuntimeError), BDDNode.restrict\'s argument normalisation, garbage collection (TB7)',
+            'the OBDD wrapper: OBDD.apply, &, |, ^, ~ return a new OBDD over the same ordering whose root denotes the pointwise combination / complement; a normal return of OBDD.apply implies equal orderings '
+            '(different orderings: RuntimeError; Ordering.__eq__ is uninterpreted); the operator lambdas are evaluated symbolically; OBDD.__init__ for the leg (node, Ordering)',
+            'NOT under proof (bounded only): orderedness of results (Ordering.in_order and respect_ordering are uninterpreted: the decomposition chosen does not matter for the function computed), variables(), '
+            'OBDD.restrict / BDDNode.restrict\'s argument normalisation, the expression parser, garbage collection (TB7)',
             'apply/compute may raise RuntimeError ("Unsupported configuration") when the ordering relates the two variables in no direction; the contract allows it without saying when'],
     'C02': ['only the wrapper LTL.modelcheck (object formula A g, F=None) is under proof: result = states all of whose paths satisfy g, GIVEN the assumed '
             'contract of _checkE_path_formula (result = states with some path satisfying the restricted formula) and the proved contracts of LNot / rewriting; '
